@@ -12,6 +12,7 @@ use std::panic::{self, AssertUnwindSafe};
 use std::sync::mpsc;
 use std::time::Duration as StdDuration;
 
+mod analyses;
 mod ops;
 mod terms;
 
